@@ -364,8 +364,9 @@ def jobs(tier):
     js.append(Job("packetizer_progress_h1_d16", build_pktz_progress, dict(hname="h1", dw=16, K=14), cost=3))
     js.append(Job("packetfifo_d4_pNone", build_pfifo, dict(depth=4, param_depth=None, buffered=False, K=K), cost=10))
     js.append(Job("packetfifo_d4_p2", build_pfifo, dict(depth=4, param_depth=2, buffered=False, K=K), cost=10))
+    js.append(Job("packetfifo_d2_pNone_buffered", build_pfifo, dict(depth=2, param_depth=None, buffered=True, K=K), cost=10))
     if T:
-        js.append(Job("packetfifo_d2_pNone_buffered", build_pfifo, dict(depth=2, param_depth=None, buffered=True, K=K), cost=10))
+        js.append(Job("packetfifo_d4_p2_buffered", build_pfifo, dict(depth=4, param_depth=2, buffered=True, K=K), cost=20))
     js.append(Job("packet_arbiter_2", build_arb, dict(n=2, K=K), cost=5))
     js.append(Job("packet_dispatcher_2", build_disp, dict(n=2, one_hot=False, K=K), cost=5))
     if T:
